@@ -14,7 +14,7 @@ use verif_harness::workspace;
 const M1: FileId = FileId(0);
 const M2: FileId = FileId(1);
 
-const IDENT_ROLES: &[&str] = &["ref", "def", "spreaddef", "altdef", "modref", "pmodref", "qref", "impname", "impalias", "modpath", "moddef", "pref", "label", "plabel", "field", "tref"];
+const IDENT_ROLES: &[&str] = &["ref", "def", "spreaddef", "altdef", "modref", "pmodref", "qref", "impname", "impalias", "modpath", "moddef", "pref", "label", "plabel", "field", "tref", "fieldalt", "qtref", "tmodref"];
 
 /// Where an answer points, in the vocabulary of the specification.
 #[derive(Debug, Clone, PartialEq, Eq, PartialOrd, Ord)]
@@ -61,7 +61,7 @@ fn key_for(prog: &Program, file: FileId, start: usize, end: usize) -> Key {
 fn expected_key(prog: &Program, t: &Tok) -> Option<Option<Key>> {
     // Some(None) = no answer expected; None = no expectation
     match t.r.as_str() {
-        "ref" | "qref" | "impname" | "impalias" | "pref" | "label" | "plabel" | "field" | "tref" => Some(match t.tg {
+        "ref" | "qref" | "impname" | "impalias" | "pref" | "label" | "plabel" | "field" | "tref" | "fieldalt" | "qtref" => Some(match t.tg {
             0 => None,
             g if g < 1000 => Some(Key::Tok(g as usize)),
             g if g < 2000 => prog.toks.iter().find(|d| d.r == "def" && d.tg == g).map(|d| Key::Tok(d.idx)),
@@ -180,7 +180,7 @@ fn main() {
                     // ---- C06 (GEN part): references of a declaration = the occurrences the specification bound to it
                     if t.r == "def" || t.r == "spreaddef" {
                         let id = if t.tg >= 1000 { t.tg } else { t.idx as u64 };
-                        let mut exp: Vec<Key> = prog.toks.iter().filter(|u| (["ref", "pref", "label", "plabel", "field", "tref", "qref"].contains(&u.r.as_str()) && u.tg == id) || u.idx == t.idx).map(|u| Key::Tok(u.idx)).collect();
+                        let mut exp: Vec<Key> = prog.toks.iter().filter(|u| (["ref", "pref", "label", "plabel", "field", "tref", "qref", "fieldalt", "qtref"].contains(&u.r.as_str()) && u.tg == id) || u.idx == t.idx).map(|u| Key::Tok(u.idx)).collect();
                         exp.sort();
                         let alt: Vec<Key> = prog.toks.iter().filter(|u| u.r == "altdef").map(|u| Key::Tok(u.idx)).collect();
                         let got: Option<Vec<Key>> = o.refs.as_ref().map(|v| v.iter().filter(|k| !alt.contains(k)).cloned().collect());
@@ -222,7 +222,7 @@ fn main() {
                             queries += 1;
                             let mut got: Vec<String> = items.iter().map(|i| i.label.to_string()).collect();
                             got.sort();
-                            let exp = vec!["A".to_string(), "C".to_string(), "a".to_string(), "c".to_string()];
+                            let exp = vec!["A".to_string(), "C".to_string(), "W".to_string(), "a".to_string(), "c".to_string()];
                             if got != exp {
                                 local.push(json!({"kind": "mismatch", "prop": "C18",
                                     "features": {"what": "module members", "ctx": t.ctx.join("/"), "inner": t.ctx.last().cloned().unwrap_or_default(),
